@@ -471,10 +471,41 @@ def _hook_common(en, con, vals, site, need_item=True):
     return pre, mname, kind, v, i
 
 
+# callers that see the vault operations through their contracts: the post-state sequences are named by fresh
+# arrays (defined pointwise by the exact abstract operation) and the callee's proved clauses are assumed on them
+MODULAR_POSTS = set()
+_ASSUMED = ("inv", "view", "len")
+
+
 def _install(en, vault, mname, kind, exp, n_item, n_cur):
-    vault.fields["__items_" + kind] = _subst_markers(exp.nodes, n_item, n_cur)
-    vault.fields[mname] = ListV(exp.m)
+    nodes = _subst_markers(exp.nodes, n_item, n_cur)
+    m = exp.m
+    if en.c.target in MODULAR_POSTS:
+        n = en.fresh(mname + ".k2", "int")
+        a_s, a_m = en.fresh(kind + ".seq2", "arr"), en.fresh(mname + ".arr2", "arr")
+        j = z3.FreshInt("j")
+        en.pc.append(n == zint(nodes.length()))
+        en.pc.append(n == zint(m.length()))
+        en.pc.append(z3.ForAll([j], z3.Implies(z3.And(0 <= j, j < n), z3.Select(a_s, j) == lift(nodes.sel(j))),
+                               patterns=[z3.Select(a_s, j)]))
+        en.pc.append(z3.ForAll([j], z3.Implies(z3.And(0 <= j, j < n), z3.Select(a_m, j) == lift(m.sel(j))),
+                               patterns=[z3.Select(a_m, j)]))
+        nodes, m = L.LLeaf(a_s, n, kind), L.LLeaf(a_m, n, mname)
+    vault.fields["__items_" + kind] = nodes
+    vault.fields[mname] = ListV(m)
     vault.fields["_indexes"][mname] = {}
+
+
+def _assume_posts(en, con, pre, vals):
+    """the callee's proved postconditions on the state just installed (modular callers only)"""
+    if en.c.target not in MODULAR_POSTS:
+        return
+    post = en.views(vals)
+    for cl in con.ensures:
+        if cl.label in _ASSUMED:
+            f = cl.fn(pre, None, post)
+            if isinstance(f, z3.ExprRef):
+                en.pc.append(f)
 
 
 def hook_set_item(en, con, vals, site):
@@ -496,6 +527,7 @@ def hook_set_item(en, con, vals, site):
     st.rep = z3.Store(st.rep, cur, z3.If(b >= 1, b, cur_rep))
     st.rep = z3.Store(st.rep, n_cur, z3.If(a >= 1, a, 1))
     _install(en, vault, mname, kind, exp, n_new, n_cur)
+    _assume_posts(en, con, pre, vals)
     if isinstance(clone, z3.ExprRef):
         if en.decide(clone):
             return make_wrapper(en, item.cls, n_new, x=item.fields.get("x"), y=item.fields.get("y"))
@@ -518,6 +550,7 @@ def hook_insert_item(en, con, vals, site):
     st.rep = z3.Store(st.rep, cur, z3.If(b >= 1, b, cur_rep))
     st.rep = z3.Store(st.rep, n_cur, z3.If(b >= 1, cur_rep - b, 1))
     _install(en, vault, mname, kind, exp, n_new, n_cur)
+    _assume_posts(en, con, pre, vals)
     return make_wrapper(en, item.cls, n_new, x=item.fields.get("x"), y=item.fields.get("y"))
 
 
@@ -531,6 +564,7 @@ def hook_delete_item(en, con, vals, site):
     cur_rep = z3.Select(st.rep, cur)
     st.rep = z3.Store(st.rep, cur, z3.If(cur_rep >= 2, cur_rep - 1, cur_rep))
     _install(en, vault, mname, kind, exp, z3.IntVal(-1), z3.IntVal(-2))
+    _assume_posts(en, con, pre, vals)
     return None
 
 
